@@ -120,10 +120,27 @@ func c02Consumption(c *Ctx, p *Prog, pi *parserInfo) {
 				last, bad := false, false
 				eachInstr(fn, func(in ssa.Instruction) {
 					ia, isIA := in.(*ssa.IndexAddr)
-					if !isIA || ia.X != input || !in.Block().Dominates(b) {
+					if !isIA || !in.Block().Dominates(b) {
 						return
 					}
 					ib, off := linBase(ia.Index)
+					if ia.X != input {
+						// an index into a reslice input[L:] is L further on
+						sl, isSl := ia.X.(*ssa.Slice)
+						if !isSl || sl.X != input || sl.Low == nil {
+							return
+						}
+						lb2, loff := linBase(sl.Low)
+						switch {
+						case ib == nil:
+							ib, off = lb2, off+loff
+						case lb2 == nil:
+							off += loff
+						default:
+							bad = true
+							return
+						}
+					}
 					switch {
 					case ib == nil: // constant index
 						if off > lb+k-1 {
